@@ -175,9 +175,9 @@ def check_freeze(nl, case, ctx=None):
     frozen = pre + ["f := freeze %s" % src] + calls
     script = SCRIPTS[case["script"]]
     frozen_after = pre + ["f := freeze %s" % src] + script + calls
-    rp = nl.run(plain, fuel=30_000, timeout=60, stop_on_panic=False)
-    rf = nl.run(frozen, fuel=30_000, timeout=60, stop_on_panic=False)
-    ra = nl.run(frozen_after, fuel=30_000, timeout=60, stop_on_panic=False)
+    rp = nl.run(plain, fuel=30_000, timeout=60, stop_on_panic=False, alloc_cap=1 << 16)
+    rf = nl.run(frozen, fuel=30_000, timeout=60, stop_on_panic=False, alloc_cap=1 << 16)
+    ra = nl.run(frozen_after, fuel=30_000, timeout=60, stop_on_panic=False, alloc_cap=1 << 16)
     np_ = len(pre)
     for r, s in zip(rp[:np_], pre):
         if r["status"] != "ok":
